@@ -18,7 +18,9 @@ RULE = ("cases = (symmetric matrix A = V diag(s) V^T with a designed spectrum s,
         "{1,2,3,5,8,13,50,200} x V in {permutation (eigh exact), random orthogonal}; requests: integers "
         "{1,2,nPos-1,nPos,nPos+1,n,n+5,0,-1}, fractions uniform, at relative distance 1e-3/1e-6/1e-8 from a prefix "
         "fraction (margin stream) or equal to one (tie stream, judged by the admissible band, i.e. |delta kept| <= 1), "
-        "and the floats 0.0, 1.0, 2.0, -0.5; plus compute_L on point clouds (full_nystroem / sparse_nystroem) and "
+        "and the floats 0.0, 1.0, 2.0, -0.5; plus compute_L on point clouds (full_nystroem / sparse_nystroem; integer ranks "
+        "also as NumPy / JAX integer scalars: np.int64 / int32 / uint8, 0-d np / jnp integer arrays, which must keep the "
+        "columns of the same Python int, with and without an explicit gp_type) and "
         "monotonicity sweeps.  distinct = hash of (spectrum, V seed, request); non-trivial = 1 < kept < #positive or an "
         "integer request below #positive")
 PARTIAL = ["float ties: when f*total coincides with a prefix sum up to rounding (relative margin < 1e-9) the number of "
@@ -44,12 +46,30 @@ SIZES_BIG = [50, 200]
 
 # ------------------------------------------------------------------ helpers
 
+# integer rank given as a NumPy / JAX integer scalar (validate_float_or_int must hand it on as the Python int)
+NPINT_FORMS = ["In", "In32", "Iu8", "Ia", "Ia32", "Ij", "Ij32"]
+SIG_NPINT = "C10:numpy-integer-rank"
+
+
 def rank_obj(r):
     k, v = r[0], r[1]
     if k == "I":
         return int(v)
     if k == "In":
         return np.int64(v)
+    if k == "In32":
+        return np.int32(v)
+    if k == "Iu8":
+        return np.uint8(v)
+    if k == "Ia":
+        return np.asarray(int(v), dtype=np.int64)
+    if k == "Ia32":
+        return np.asarray(int(v), dtype=np.int32)
+    if k in ("Ij", "Ij32"):
+        import jax.numpy as jnp
+        a = jnp.asarray(np.asarray(int(v), dtype=np.int64 if k == "Ij" else np.int32))
+        assert a.ndim == 0 and a.dtype.kind == "i"
+        return a
     if k == "F":
         return float(v)
     if k == "Fn":
@@ -300,12 +320,15 @@ def case_L(ctx, res, p):
     res.count("L:request=" + ("frac" if rank_is_float(r) else "int"))
     canon = ("L", gp, x.tobytes(), None if xu is None else xu.tobytes(), p["kind"], p["ls"], jitter, tuple(r))
     sample = {"op": "L", "gp": gp, "n": n, "m": None if xu is None else xu.shape[0], "rank": r, "kind": p["kind"]}
+    npint = r[0] in NPINT_FORMS
+    if npint:
+        res.count("L:request=numpy-integer:" + r[0])
     try:
         L = np.asarray(compute_L(x, cov, gp_type=gp, landmarks=xu, rank=rank_obj(r), jitter=jitter), float)
     except Exception as e:
         res.case(canon, False, sample)
         res.oracle_fail(f"compute_L raised {exc_class(e)} for a valid Nystroem request", p,
-                        detail={"exc": str(e)[:200]}, signature="C10:L-raises")
+                        detail={"exc": str(e)[:200]}, signature=SIG_NPINT if npint else "C10:L-raises")
         return
     kept = L.shape[1]
     # independent reference: NumPy spectrum of the matrix that is approximated
@@ -336,7 +359,7 @@ def case_L(ctx, res, p):
         if not (lo <= kept <= hi):
             res.oracle_fail("compute_L keeps a number of directions different from the request", p,
                             detail={"kept": kept, "admissible": [lo, hi], "gp": gp},
-                            signature="C10:L-count-" + gp)
+                            signature=SIG_NPINT if npint else "C10:L-count-" + gp)
     # eigen reproduction: columns of L are orthogonal eigenvectors of Aref scaled by sqrt(eigenvalue)
     G = L.T @ L
     S = np.diag(G).copy()
@@ -386,6 +409,61 @@ def case_L(ctx, res, p):
                 res.corr_fail(f"model({mode}) keeps {km}, compute_L {kept} (margin {mg:.3g}, {gp})", p)
 
 
+# ------------------------------------------------------------------ integer rank as a NumPy / JAX integer scalar
+
+def case_Lnp(ctx, res, p):
+    """compute_L(rank = NumPy / JAX integer scalar k) keeps the columns of compute_L(rank = Python int k): k of them when
+    0 < k < cap (cap = cells, resp. landmarks; every eigenvalue of the stabilised matrix is positive), all of them
+    otherwise - with the type inferred from the rank (gp_type=None) or given.  (Before fix 4604925 the scalar became the
+    float k.0 = 'no rank reduction': a full factor without gp_type, a refusal with an explicit Nystroem type.)"""
+    from mellon.parameters import compute_L
+    x = np.asarray(p["x"], float)
+    n = x.shape[0]
+    gp = p["gp"]
+    xu = np.asarray(p["landmarks"], float) if p.get("landmarks") is not None else None
+    jitter = float(p.get("jitter", 1e-6))
+    k = int(p["k"])
+    cov = make_cov(p["kind"], float(p["ls"]))
+    cap = n if xu is None else min(n, xu.shape[0])
+    want_cols = k if 0 < k < cap else cap
+    res.count("Lnp:gp=" + str(gp))
+    res.count("Lnp:" + ("reduces" if 0 < k < cap else "full"))
+    res.case(("Lnp", gp, x.tobytes(), None if xu is None else xu.tobytes(), p["kind"], p["ls"], jitter, k, tuple(p["forms"])),
+             0 < k < cap, {"op": "Lnp", "gp": gp, "n": n, "m": None if xu is None else xu.shape[0], "k": k, "forms": p["forms"]})
+
+    def run(r):
+        try:
+            return "ok", np.asarray(compute_L(x, cov, gp_type=gp, landmarks=xu, rank=rank_obj(r), jitter=jitter), float)
+        except Exception as e:          # noqa
+            return exc_class(e), str(e)[:160]
+    c0, L0 = run(["I", k])
+    if c0 != "ok":
+        # only generated for requests the Python int satisfies
+        res.oracle_fail(f"compute_L(rank={k}) raised {c0} for a consistent request", p, detail={"exc": L0},
+                        signature="C10:L-raises")
+        return
+    if L0.shape != (n, want_cols):
+        res.oracle_fail("compute_L keeps a number of directions different from the integer request", p,
+                        detail={"shape": list(L0.shape), "want_cols": want_cols}, signature="C10:L-count-int")
+    for form in p["forms"]:
+        res.count("Lnp:form=" + form)
+        c1, L1 = run([form, k])
+        if c1 != "ok":
+            res.oracle_fail(f"compute_L(rank={form}({k})) raised {c1} although rank={k} is accepted", p,
+                            detail={"form": form, "exc": L1, "gp": gp}, signature=SIG_NPINT)
+            continue
+        if L1.shape != L0.shape or L1.shape[1] != want_cols:
+            res.oracle_fail(f"compute_L(rank={form}({k})) keeps {L1.shape[1]} columns, rank={k} keeps {L0.shape[1]} "
+                            f"(requested: {want_cols})", p, detail={"form": form, "gp": gp, "shape": list(L1.shape)},
+                            signature=SIG_NPINT)
+            continue
+        dv = rel_err(L1, L0)
+        res.dev("Lnp:factor_vs_python_int_rel", dv)
+        if dv > 1e-12:
+            res.oracle_fail("compute_L with a NumPy / JAX integer rank returns another factor than with the Python int", p,
+                            detail={"form": form, "rel": dv}, signature=SIG_NPINT)
+
+
 # ------------------------------------------------------------------ monotone requests
 
 def case_mono(ctx, res, p):
@@ -430,6 +508,8 @@ def run_case(ctx, res, p):
         return case_eig(ctx, res, p)
     if op == "L":
         return case_L(ctx, res, p)
+    if op == "Lnp":
+        return case_Lnp(ctx, res, p)
     if op == "mono":
         return case_mono(ctx, res, p)
     raise ValueError(op)
@@ -538,9 +618,29 @@ def gen_L(rng, gp, n=None):
         p["landmarks"] = x[rng.permutation(n)[:mm]] + 0.05 * rng.normal(size=(mm, d))
         cap = mm
     if rng.random() < 0.4:
-        p["rank"] = ["I", int(rng.integers(1, cap))]
+        form = NPINT_FORMS[int(rng.integers(len(NPINT_FORMS)))] if rng.random() < 0.3 else "I"
+        p["rank"] = [form, int(rng.integers(1, cap))]
     else:
         p["rank"] = ["F", float(rng.choice([0.5, 0.8, 0.9, 0.99, 0.999, float(rng.uniform(0.05, 0.999))]))]
+    return p
+
+
+def gen_Lnp(rng, gp, with_landmarks, forms=None, k=None):
+    n = int(rng.choice([8, 13]))
+    d = int(rng.choice([1, 2]))
+    x = rng.normal(size=(n, d)) * loguniform(rng, 0.5, 2.0)
+    p = {"op": "Lnp", "gp": gp, "x": x, "kind": ["M52", "EQ", "M32"][rng.integers(3)], "ls": loguniform(rng, 0.3, 3.0),
+         "jitter": float(rng.choice([1e-6, 1e-3])), "landmarks": None}
+    cap = n
+    if with_landmarks:
+        mm = int(rng.choice([3, 5]))
+        p["landmarks"] = x[rng.permutation(n)[:mm]] + 0.05 * rng.normal(size=(mm, d))
+        cap = mm
+    if k is None:
+        # a reducing request; without an explicit type also the boundary / full-rank requests (cap, cap + 3, 0)
+        k = int(rng.integers(1, cap)) if (gp is not None or rng.random() < 0.7) else int(rng.choice([cap, cap + 3, 0]))
+    p["k"] = int(k)
+    p["forms"] = list(forms) if forms else [NPINT_FORMS[i] for i in rng.permutation(len(NPINT_FORMS))[:3]]
     return p
 
 
@@ -565,6 +665,13 @@ def run(ctx, res):
     for gp in ("full_nystroem", "sparse_nystroem"):
         for _ in range(3 if quick else 12):
             run_case(ctx, res, gen_L(rng, gp))
+    # integer rank given as np.int64 / np.int32 / np.uint8 / 0-d np / jnp integer array (always run; witness of the
+    # defect repaired by fix 4604925, signature C10:numpy-integer-rank): type inferred and explicit, with and without landmarks
+    run_case(ctx, res, gen_Lnp(rng, None, False, forms=NPINT_FORMS, k=3))
+    run_case(ctx, res, gen_Lnp(rng, None, True, forms=["In", "In32", "Ij"], k=2))
+    run_case(ctx, res, gen_Lnp(rng, "full_nystroem", False, forms=["In", "Ia", "Ij32"]))
+    run_case(ctx, res, gen_Lnp(rng, "sparse_nystroem", True, forms=["In32", "Iu8", "Ij"]))
+    run_case(ctx, res, gen_Lnp(rng, None, False, forms=["In", "Ij"], k=0))
     for _ in range(2 if quick else 10):
         n = int(rng.choice([5, 8]))
         s, _d = gen_spectrum(rng, n, ["slow", "fast", "ties", "negative"][rng.integers(4)])
@@ -581,8 +688,11 @@ def run(ctx, res):
             if not quick and rng.random() < 0.03:
                 n = int(SIZES_BIG[rng.integers(2)])
             run_case(ctx, res, gen_eig(rng, n))
-        elif u < 0.96:
+        elif u < 0.94:
             run_case(ctx, res, gen_L(rng, ["full_nystroem", "sparse_nystroem"][rng.integers(2)]))
+        elif u < 0.96:
+            gp, lm = [(None, False), (None, True), ("full_nystroem", False), ("sparse_nystroem", True)][rng.integers(4)]
+            run_case(ctx, res, gen_Lnp(rng, gp, lm))
         else:
             n = int(rng.choice([3, 5, 8]))
             s, _d = gen_spectrum(rng, n, FAMILIES[rng.integers(len(FAMILIES))])
@@ -603,7 +713,10 @@ CLAIM = {
             "monotone in the request; and, from the eigh contract, L = V_p sqrt(S_p) satisfies L L^T v_i = s_i v_i for "
             "kept i, A - L L^T is the dropped tail and x^T L L^T x is monotone in p. Tied to /repo by running "
             "_eigendecomposition and compute_L (full_nystroem, sparse_nystroem) against the model over exact rationals "
-            "and over doubles, and by an independent exact-Fraction oracle on designed spectra.",
+            "and over doubles, and by an independent exact-Fraction oracle on designed spectra. An integer rank given as a "
+            "NumPy / JAX integer scalar (np.int64/int32/uint8, 0-d np/jnp integer array) must keep the columns of the same "
+            "Python int through compute_L, with the type inferred or explicit (regression witness C10:numpy-integer-rank; the "
+            "coercion itself is C20.float_or_int_keeps_integers / C15.numpy_integer_rank_is_integer_rank).",
     "note": "Exact statement over ordered fields; float64 rounding of cumsum and f*total is modelled away (ties judged "
             "within one direction). 'total' is the sum of the positive eigenvalues (= trace for PSD input). Spectra with "
             "no positive eigenvalue are outside the property (model mirrors the code: IndexError / everything kept). "
